@@ -189,6 +189,17 @@ Theorem C13_regression_race_str : exists sched, race_witness prog_version zero_s
 Proof. exact race_str. Qed.
 Print Assumptions C13_regression_race_str.
 
+(* a C library call that keeps hidden process-wide state (row "libc:mbrtowc(NULL)" of the statics table: the
+   conversion state when the caller passes no mbstate_t): both handles are about to update it, no lock *)
+Theorem C13_hidden_libc_state_races : exists sched, race_witness prog_mbstate mbstate_store sched S_mbstate.
+Proof. exact race_mbstate. Qed.
+Print Assumptions C13_hidden_libc_state_races.
+
+(* ... and the result one handle sees depends on the other: its ASCII name fails to convert *)
+Theorem C13_hidden_libc_state_result : differs prog_mbstate mbstate_store (Private 0 "out2").
+Proof. exact mbstate_result_differs. Qed.
+Print Assumptions C13_hidden_libc_state_result.
+
 (* a race_witness is in particular a race in the sense excluded by C13_policy_race_free_partial *)
 Theorem C13_race_witness_is_race : forall p s0 sched n, race_witness p s0 sched n -> race_after p sched n.
 Proof. exact race_witness_race_after. Qed.
